@@ -184,6 +184,22 @@ func (rb *ResponseBuffer) Buffered() bool {
 	return !rb.stream
 }
 
+// Written returns whether the handler has written a response
+// (at least its header) to rb, buffered or not.
+func (rb *ResponseBuffer) Written() bool {
+	return rb.wroteHeader
+}
+
+// Flush flushes the underlying ResponseWriter when the response is
+// being streamed. While the response is buffered there is nothing to
+// flush yet, and flushing the underlying writer would commit an empty
+// 200 header before the buffered status and header fields are copied.
+func (rb *ResponseBuffer) Flush() {
+	if rb.wroteHeader && rb.stream {
+		rb.ResponseWriterWrapper.Flush()
+	}
+}
+
 // CopyHeader copies the buffered header in rb to the ResponseWriter,
 // but it does not write the header out.
 func (rb *ResponseBuffer) CopyHeader() {
